@@ -6,6 +6,7 @@
 package verifrt
 
 import (
+	"path/filepath"
 	"archive/zip"
 	"bytes"
 	"encoding/csv"
@@ -67,6 +68,9 @@ func Main() {
 		}
 	}()
 	f()
+	for _, d := range tempDirs {
+		os.RemoveAll(d)
+	}
 	fmt.Println("DONE")
 }
 
@@ -222,6 +226,41 @@ func Archive(files []File) []byte {
 	}
 	return buf.Bytes()
 }
+
+// DirEntry is one entry of a feed directory: Kind 0 readable file holding Msg, 1 unreadable (a sub-directory), 2 corrupt bytes, 3 empty file.
+type DirEntry struct {
+	Name string
+	Kind int
+	Msg  *gtfsrt.FeedMessage
+}
+
+// Dir creates a real temporary directory with the given entries.
+func Dir(entries []DirEntry) string {
+	base, err := os.MkdirTemp("", "verifdir")
+	if err != nil {
+		panic(err)
+	}
+	for _, e := range entries {
+		p := filepath.Join(base, e.Name)
+		switch e.Kind {
+		case 1:
+			err = os.Mkdir(p, 0o755)
+		case 2:
+			err = os.WriteFile(p, BadBytes(), 0o644)
+		case 3:
+			err = os.WriteFile(p, nil, 0o644)
+		default:
+			err = os.WriteFile(p, Marshal(e.Msg), 0o644)
+		}
+		if err != nil {
+			panic(err)
+		}
+	}
+	tempDirs = append(tempDirs, base)
+	return base
+}
+
+var tempDirs []string
 
 func Marshal(m *gtfsrt.FeedMessage) []byte {
 	b, err := proto.MarshalOptions{AllowPartial: true}.Marshal(m)
